@@ -30,7 +30,9 @@ META = {
         "empty/present and timestamps 1971-2100 (microsecond and exact-millisecond). Oracles: from_dict(to_dict(x)) and "
         "from_json_dict(json(to_json_dict(x))) equal x modulo ms truncation and empty-optional-string==absent; "
         "differential: to_dict(x) equals an independent reference encoder written from the protocol field names, and "
-        "from_dict(reference(x)) equals x; factory-made updates carry every option on the wire. Non-trivial = object with "
+        "from_dict(reference(x)) equals x; factory-made updates carry every option on the wire; every decoder is applied twice "
+        "to the very same dictionary object: it leaves it unchanged and answers the same; an eighth of the timestamp/"
+        "operation/input cases run once more with the process time zone set to UTC+9, US Eastern (DST) and UTC+5:45. Non-trivial = object with "
         ">=1 details/options sub-structure and >=1 optional field present; distinct = (class, set of present fields)."
     ),
     "assumptions": [
@@ -437,6 +439,31 @@ def _guard(kind, fn):
         return None, _v(kind + "_raised", type(e).__name__, repr(e))
 
 
+def _decode(kind, decode, src, out):
+    """Decode `src` twice from the very same dictionary object: a decoder is a function of the wire value - it must
+    leave its input alone and give the same answer again (the SDK decodes a checkpoint response it may log or
+    decode again). Returns the first result (or None); appends findings to `out`."""
+    import copy
+
+    snap = copy.deepcopy(src)
+    back, err = _guard(kind, lambda: decode(src))
+    if err:
+        out.append(err)
+        return None
+    try:
+        same = src == snap
+    except Exception:  # noqa: BLE001
+        same = False
+    if not same:
+        out.append(_v("decoder_mutates_its_input", kind, f"before={snap!r}\nafter={src!r}"[:1500]))
+    back2, err2 = _guard(kind + "[second decode of the same dictionary]", lambda: decode(src))
+    if err2:
+        out.append(err2)
+    elif back2 != back:
+        out.append(_v("second_decode_differs", kind, f"first={back!r}\nsecond={back2!r}"[:1500]))
+    return back
+
+
 def check_operation(op) -> list[dict]:
     out = []
     n = norm(op)
@@ -447,10 +474,8 @@ def check_operation(op) -> list[dict]:
     d = dict_diff(ref, wire)
     if d:
         out.append(_v("wire_differs_from_reference", "Operation.to_dict:" + d, f"op={op!r}\nwire={wire!r}\nref={ref!r}"))
-    back, err = _guard("Operation.from_dict", lambda: L.Operation.from_dict(wire))
-    if err:
-        out.append(err)
-    else:
+    back = _decode("Operation.from_dict", L.Operation.from_dict, wire, out)
+    if back is not None:
         d = diff(n, back)
         if d:
             out.append(_v("roundtrip_mismatch", "Operation.dict:" + d, f"in={n!r}\nout={back!r}\nwire={wire!r}"))
@@ -470,10 +495,8 @@ def check_operation(op) -> list[dict]:
         d = dict_diff(jref, jwire)
         if d:
             out.append(_v("wire_differs_from_reference", "Operation.to_json_dict:" + d, f"op={op!r}\nwire={jwire!r}\nref={jref!r}"))
-        back, err = _guard("Operation.from_json_dict", lambda: L.Operation.from_json_dict(jwire))
-        if err:
-            out.append(err)
-        else:
+        back = _decode("Operation.from_json_dict", L.Operation.from_json_dict, jwire, out)
+        if back is not None:
             d = diff(n, back, ms=True)
             if d:
                 out.append(_v("roundtrip_mismatch", "Operation.json:" + d, f"in={n!r}\nout={back!r}\nwire={jwire!r}"))
@@ -592,9 +615,8 @@ def check_input(inp) -> list[dict]:
     if d:
         out.append(_v("wire_differs_from_reference", "InvocationInput.to_dict:" + d, f"wire={wire!r}\nref={ref!r}"))
     for label, src in (("dict", wire), ("from_dict", ref)):
-        back, err = _guard(f"InvocationInput.from_dict[{label}]", lambda s=src: X.DurableExecutionInvocationInput.from_dict(s))
-        if err:
-            out.append(err)
+        back = _decode(f"InvocationInput.from_dict[{label}]", X.DurableExecutionInvocationInput.from_dict, src, out)
+        if back is None:
             continue
         d = diff(n, back)
         if d:
@@ -604,10 +626,8 @@ def check_input(inp) -> list[dict]:
     if err:
         out.append(err)
     else:
-        back, err = _guard("InvocationInput.from_json_dict", lambda: X.DurableExecutionInvocationInput.from_json_dict(jwire))
-        if err:
-            out.append(err)
-        else:
+        back = _decode("InvocationInput.from_json_dict", X.DurableExecutionInvocationInput.from_json_dict, jwire, out)
+        if back is not None:
             d = diff(n, back, ms=True)
             if d:
                 out.append(_v("roundtrip_mismatch", "InvocationInput.json:" + d, f"in={n!r}\nout={back!r}"))
@@ -777,9 +797,41 @@ def shard(ctx) -> None:
     ]
     for i, (kind, n) in enumerate(plan):
         _run_kind(ctx, kind, n, ctx.seed + i)
+    # the same laws with the process in another time zone (the codecs are defined on instants, not on local time)
+    for j, tz in enumerate(TZS):
+        for i, kind in enumerate(("timestamp", "operation", "input")):
+            _run_kind(ctx, kind, max(20, dict(plan)[kind] // 8), ctx.seed + 100 + 10 * j + i, tz=tz)
 
 
-def _run_kind(ctx, kind: str, n: int, sd: int) -> None:
+TZS = ("JST-9", "EST5EDT", "NPT-5:45")
+
+
+class _tz:
+    def __init__(self, tz):
+        self.tz = tz
+
+    def __enter__(self):
+        import os
+        import time
+
+        self.old = os.environ.get("TZ")
+        if self.tz:
+            os.environ["TZ"] = self.tz
+            time.tzset()
+
+    def __exit__(self, *a):
+        import os
+        import time
+
+        if self.tz:
+            if self.old is None:
+                os.environ.pop("TZ", None)
+            else:
+                os.environ["TZ"] = self.old
+            time.tzset()
+
+
+def _run_kind(ctx, kind: str, n: int, sd: int, tz: str | None = None) -> None:
     strat, fn = KINDS[kind]
 
     @seed(sd)
@@ -787,7 +839,8 @@ def _run_kind(ctx, kind: str, n: int, sd: int) -> None:
               suppress_health_check=list(HealthCheck), report_multiple_bugs=False)
     @given(strat)
     def t(x):
-        vs = fn(x)
+        with _tz(tz):
+            vs = fn(x)
         obj = x if kind not in ("factory", "timestamp") else None
         nt = _nontrivial(obj) if obj is not None else (kind == "factory")
         key = None
@@ -795,10 +848,12 @@ def _run_kind(ctx, kind: str, n: int, sd: int) -> None:
             key = ["ts", x % 1000 == 0, x % 7919] if ctx.histogram["timestamp"] < 400 else None
         elif nt:
             key = [kind, _present(obj)] if obj is not None else [kind, x[0], sorted(k for k, v in x[1].items() if v)]
-        ctx.case(nontrivial_key=key, classes=[kind],
+        if tz and key is not None:
+            key = [tz] + key
+        ctx.case(nontrivial_key=key, classes=[kind] + (["process-time-zone:" + tz] if tz else []),
                  sample={"kind": kind, "case": enc(x)} if (nt and ctx.histogram[kind] < 2) else None)
         for v in vs:
-            ctx.violation(v["kind"], v["site"], v["detail"], {"kind": kind, "value": enc(x)})
+            ctx.violation(v["kind"], v["site"] + (":non-UTC-process" if tz else ""), v["detail"], {"kind": kind, "value": enc(x), **({"tz": tz} if tz else {})})
 
     t()
 
@@ -807,12 +862,16 @@ def replay(case: dict) -> list[dict]:
     x = dec(case["value"])
     if case["kind"] == "factory":
         x = (x[0], x[1])
-    return KINDS[case["kind"]][1](x)
+    with _tz(case.get("tz")):
+        rs = KINDS[case["kind"]][1](x)
+    return [{**r, "site": r["site"] + (":non-UTC-process" if case.get("tz") else "")} for r in rs]
 
 
 def minimise(entry: dict) -> dict:
     kind = entry["case"]["kind"]
     strat, fn = KINDS[kind]
+    if entry["case"].get("tz"):
+        return entry
     sig = (entry["kind"], entry["site"])
     try:
         x = find(strat, lambda v: any((r["kind"], r["site"]) == sig for r in fn(v)),
